@@ -68,12 +68,14 @@ MulGuardG == P(W - 1) -- P(F)
 ProdTargets == {P(W - 1), ZNeg(P(W - 1)), Maxv ** OneFx, Lowestv ** OneFx, MulGuardG, ZNeg(MulGuardG)}
 SolveMul(a) == IF a = Z0 THEN {} ELSE {x \in UNION {Near(ZTDiv(tg, a), 1) : tg \in ProdTargets} : Finite(x)}
 PairsMul == {<<a, b>> : a \in LmFinite, b \in LmFinite} \cup UNION {{<<a, b>> : b \in SolveMul(a)} : a \in LmFinite}
-IntTagsG == <<"i8", "u8", "i16", "u16", "i32", "u32", "i64", "u64">>
+IntTagsG == <<"i8", "u8", "i16", "u16", "i32", "u32", "i64", "u64", "ll", "ull">>
+NT == Len(IntTagsG)
 TypeG(tag) ==
    CASE tag = "i8" -> [bits |-> 8, signed |-> TRUE]   [] tag = "u8" -> [bits |-> 8, signed |-> FALSE]
      [] tag = "i16" -> [bits |-> 16, signed |-> TRUE] [] tag = "u16" -> [bits |-> 16, signed |-> FALSE]
      [] tag = "i32" -> [bits |-> 32, signed |-> TRUE] [] tag = "u32" -> [bits |-> 32, signed |-> FALSE]
      [] tag = "i64" -> [bits |-> 64, signed |-> TRUE] [] tag = "u64" -> [bits |-> 64, signed |-> FALSE]
+     [] tag = "ll" -> [bits |-> 64, signed |-> TRUE]  [] tag = "ull" -> [bits |-> 64, signed |-> FALSE]
 (* landmark values of an integral type *)
 IntLm(tag) ==
    LET t == TypeG(tag)
@@ -85,7 +87,7 @@ IntLm(tag) ==
 FxForScalar == {x \in LmFinite : TRUE}
 Jobs_C02 ==
    S2Q({Call("mul", <<"fx", "fx">>, p) : p \in PairsMul}) \o S2Q({CallAsg("mul", <<"fx", "fx">>, p) : p \in PairsMul})
-   \o FlatSeq([i \in 1..8 |->
+   \o FlatSeq([i \in 1..NT |->
          S2Q({Call("mul", <<"fx", IntTagsG[i]>>, <<a, n>>) : a \in FxForScalar, n \in IntLm(IntTagsG[i])})
          \o S2Q({Call("mul", <<IntTagsG[i], "fx">>, <<n, a>>) : a \in FxForScalar, n \in IntLm(IntTagsG[i])})
          \o <<Rand("mul", <<"fx", IntTagsG[i]>>, NR(1500, 40000), Seed + 10 + i), Rand("mul", <<IntTagsG[i], "fx">>, NR(1500, 40000), Seed + 20 + i)>>])
@@ -98,7 +100,7 @@ DivA == LmFinite \cup PM(UNION {Near(P(k), 2) : k \in {31, 46, 47}})
 PairsDiv == {<<a, b>> : a \in DivA, b \in DivB \cup (IF Thorough THEN LmFinite ELSE {})}
 Jobs_C03 ==
    S2Q({Call("div", <<"fx", "fx">>, p) : p \in PairsDiv}) \o S2Q({CallAsg("div", <<"fx", "fx">>, p) : p \in PairsDiv})
-   \o FlatSeq([i \in 1..8 |->
+   \o FlatSeq([i \in 1..NT |->
          S2Q({Call("div", <<"fx", IntTagsG[i]>>, <<a, n>>) : a \in FxForScalar, n \in IntLm(IntTagsG[i])})
          \o <<Rand("div", <<"fx", IntTagsG[i]>>, NR(1500, 40000), Seed + 30 + i)>>])
    \o <<Rand("div", <<"fx", "fx">>, NR(10000, 300000), Seed + 7), RandB("div", <<"fx", "fx">>, NR(10000, 300000), Seed + 8, 47),
@@ -110,17 +112,17 @@ F2IRaws == LmAll \cup UNION {Near(n ** OneFx, 1) \cup {(n ** OneFx) ++ ZN(65535)
                               n \in PM({Z0, Z1, ZN(127), ZN(128), ZN(129), ZN(255), ZN(256), ZN(32767), ZN(32768), ZN(65535), ZN(65536),
                                         P(31) -- Z1, P(31), P(32) -- Z1, P(32), P(46)})}
 Jobs_C04 ==
-   FlatSeq([i \in 1..8 |-> FlatSeq([v \in 1..4 |->
+   FlatSeq([i \in 1..NT |-> FlatSeq([v \in 1..4 |->
          (IF TypeG(IntTagsG[i]).bits <= 16
           THEN <<SweepVia("i2f", IntTagsG[i], TMin(TypeG(IntTagsG[i])), TMax(TypeG(IntTagsG[i])),
                           IF Thorough \/ TypeG(IntTagsG[i]).bits = 8 THEN 1 ELSE 7, Vias[v], "fx")>>
           ELSE <<>>)
          \o S2Q({CallVia("i2f", <<IntTagsG[i]>>, <<n>>, Vias[v], "fx") : n \in IntLm(IntTagsG[i])})
          \o <<[Rand("i2f", <<IntTagsG[i]>>, NR(500, 20000), Seed + 40 + i) EXCEPT !.via = Vias[v]]>>])])
-   \o FlatSeq([i \in 1..8 |-> FlatSeq([v \in 1..3 |->
+   \o FlatSeq([i \in 1..NT |-> FlatSeq([v \in 1..3 |->
          S2Q({CallVia("f2i", <<"fx">>, <<x>>, <<"f2i", "f2a", "cast">>[v], IntTagsG[i]) : x \in {y \in F2IRaws : Finite(y)}})
          \o <<[Rand("f2i", <<"fx">>, NR(500, 20000), Seed + 50 + i) EXCEPT !.via = <<"f2i", "f2a", "cast">>[v], !.ot = IntTagsG[i]]>>])])
-   \o FlatSeq([i \in 1..8 |->
+   \o FlatSeq([i \in 1..NT |->
          S2Q({Call(op, <<"fx", IntTagsG[i]>>, <<Z0, n>>) : op \in {"add", "sub"}, n \in IntLm(IntTagsG[i])})
          \o S2Q({Call(op, <<IntTagsG[i], "fx">>, <<n, Z0>>) : op \in {"add", "sub"}, n \in IntLm(IntTagsG[i])})])
 
